@@ -238,45 +238,47 @@ impl<C: UistClient> Update for UistBroker<C> {
     /// * Rebalances cash, which can trigger new trades if broker is in invalid state
     async fn check(&mut self) {
         if let Ok(tick_response) = self.http_client.tick(self.backtest_id).await {
+            //The trades of this tick have executed whether or not the quotes can be fetched, if
+            //the quote request fails we keep the previous prices
             if let Ok(quotes_response) = self.http_client.fetch_quotes(self.backtest_id).await {
                 //Update prices, these prices are not tradable
                 for (symbol, quote) in &quotes_response.quotes {
                     self.latest_quotes
                         .insert(symbol.clone(), quote.clone().into());
                 }
+            }
 
-                for trade in tick_response.executed_trades {
-                    match trade.typ {
-                        //Force debit so we can end up with negative cash here
-                        TradeType::Buy => self.debit_force(&trade.value),
-                        TradeType::Sell => self.credit(&trade.value),
-                    };
-                    self.log.record::<Trade>(trade.clone());
+            for trade in tick_response.executed_trades {
+                match trade.typ {
+                    //Force debit so we can end up with negative cash here
+                    TradeType::Buy => self.debit_force(&trade.value),
+                    TradeType::Sell => self.credit(&trade.value),
+                };
+                self.log.record::<Trade>(trade.clone());
 
-                    let curr_position = self.get_position_qty(&trade.symbol).unwrap_or(0.0);
+                let curr_position = self.get_position_qty(&trade.symbol).unwrap_or(0.0);
 
-                    let updated = match trade.typ {
-                        TradeType::Buy => curr_position + trade.quantity,
-                        TradeType::Sell => curr_position - trade.quantity,
-                    };
-                    self.update_holdings(&trade.symbol, updated);
+                let updated = match trade.typ {
+                    TradeType::Buy => curr_position + trade.quantity,
+                    TradeType::Sell => curr_position - trade.quantity,
+                };
+                self.update_holdings(&trade.symbol, updated);
 
-                    //Because the order has completed, we should be able to unwrap pending_orders safetly
-                    //If this fails then there must be an application bug and panic is required.
-                    let pending = self.pending_orders.get(&trade.symbol).unwrap_or(&0.0);
+                //Because the order has completed, we should be able to unwrap pending_orders safetly
+                //If this fails then there must be an application bug and panic is required.
+                let pending = self.pending_orders.get(&trade.symbol).unwrap_or(&0.0);
 
-                    let updated_pending = match trade.typ {
-                        TradeType::Buy => *pending - trade.quantity,
-                        TradeType::Sell => *pending + trade.quantity,
-                    };
-                    if updated_pending == 0.0 {
-                        self.pending_orders.remove(&trade.symbol);
-                    } else {
-                        self.pending_orders.insert(trade.symbol, updated_pending);
-                    }
-
-                    self.last_seen_trade += 1;
+                let updated_pending = match trade.typ {
+                    TradeType::Buy => *pending - trade.quantity,
+                    TradeType::Sell => *pending + trade.quantity,
+                };
+                if updated_pending == 0.0 {
+                    self.pending_orders.remove(&trade.symbol);
+                } else {
+                    self.pending_orders.insert(trade.symbol, updated_pending);
                 }
+
+                self.last_seen_trade += 1;
             }
         }
         //Previous step can cause negative cash balance so we have to rebalance here, this
